@@ -445,7 +445,9 @@ void CoverTreeWrapper<P, DistanceCallback>::copy_zero_set(DistanceCallback& dcb,
     auto end = begin(zero_set) + size(zero_set);
     for (auto ele = begin(zero_set); ele != end; ele++)
     {
-        ScalarType upper_dist = new_upper_bound[0] + query_chi->max_dist;
+        // The bound holds for the point of query_chi; any point below it is at most max_dist away from
+        // that point and its own bound is at most max_dist larger (as in descend): max_dist counts twice
+        ScalarType upper_dist = new_upper_bound[0] + query_chi->max_dist + query_chi->max_dist;
         if (shell(ele->dist, query_chi->parent_dist, upper_dist))
         {
             ScalarType d = distance(dcb, query_chi->p, ele->n->p, upper_dist);
@@ -474,7 +476,8 @@ void CoverTreeWrapper<P, DistanceCallback>::copy_cover_sets(DistanceCallback& dc
         auto end = begin(cover_sets[current_scale]) + size(cover_sets[current_scale]);
         for (; ele != end; ele++)
         {
-            ScalarType upper_dist = new_upper_bound[0] + query_chi->max_dist + ele->n->max_dist;
+            ScalarType upper_dist =
+                new_upper_bound[0] + query_chi->max_dist + query_chi->max_dist + ele->n->max_dist;
             if (shell(ele->dist, query_chi->parent_dist, upper_dist))
             {
                 ScalarType d = distance(dcb, query_chi->p, ele->n->p, upper_dist);
